@@ -324,12 +324,18 @@ func Sleep(d time.Duration) {
 	Yield(siteSleep)
 }
 
+// ptrOf turns &x (x being the operand of x.Lock()) into the identity of the
+// lock: the address x points to when x is itself a pointer (a *sync.Mutex
+// variable, or a receiver with an embedded mutex), else the address of x.
 func ptrOf(p interface{}) uintptr {
 	v := reflect.ValueOf(p)
-	if v.Kind() == reflect.Ptr || v.Kind() == reflect.UnsafePointer {
-		return v.Pointer()
+	if v.Kind() != reflect.Ptr {
+		return 0
 	}
-	return 0
+	if e := v.Elem(); e.Kind() == reflect.Ptr || e.Kind() == reflect.UnsafePointer {
+		return e.Pointer()
+	}
+	return v.Pointer()
 }
 
 // Lock is what x.Lock()/x.RLock() is rewritten to. Waiters are woken by the
